@@ -39,6 +39,7 @@ def main(argv):
         'C10': lambda: props_def.check_c10(tier, seed),
         'C11': lambda: props_def.check_c11(tier, seed),
         'C17': lambda: props_def.check_c17(tier, seed),
+        'C19': lambda: props_def.check_c19(tier, seed),
         'C18': lambda: props_def.check_c18(tier, seed),
         'C15': lambda: props_lib.check_c15(tier, seed),
         'C13': lambda: props_lex.check_c13(tier, seed),
